@@ -77,21 +77,28 @@ TIERS = {
     },
     'thorough': {
         'bfs': [
-            ('len3-broad', cfg(3, bs=(1, 2, 3, 4), mts=(None, 8, 16), exp=(None, 1, 2, 3),
-                               mbuf=(None, 1, 2, 3)), 60000),
-            ('len4-broad', cfg(4, bs=(2, 3, 4), mts=(None, 8, 16), exp=(None, 1, 2, 3),
-                               mbuf=(None, 1, 2, 3), drop=(False,)), 60000),
-            ('len4-drop', cfg(4, bs=(2, 3), mts=(None, 8), exp=(None, 1, 3),
-                              mbuf=(None, 1, 3), drop=(True,)), 40000),
+            ('len3-broad', cfg(3, bs=(1, 2, 3, 4), mts=(None, 8, 16), exp=(None, 1, 2),
+                               mbuf=(None, 1, 2)), 20000),
+            ('len4-broad', cfg(4, bs=(2, 3, 4), rates=(2, 5, 9), mts=(None, 8, 16),
+                               exp=(None, 1, 3), mbuf=(None, 1, 3), drop=(False,)), 20000),
+            ('len4-drop', cfg(4, bs=(2, 3), rates=(2, 5, 9), mts=(None, 8), exp=(None, 1, 3),
+                              mbuf=(None, 1, 3), drop=(True,)), 20000),
             ('len5-interplay', cfg(5, bs=(2, 3), rates=(2, 5), mts=(None, 16), exp=(None, 3),
-                                   mbuf=(None, 3)), 60000),
+                                   mbuf=(None, 3), drop=(False,)), 20000),
             ('len6-small-alphabet', cfg(6, alphabet=(2, 4, 5, 10), bs=(2, 3), rates=(5,),
                                         mts=(None, 16), exp=(None, 2, 4), mbuf=(None, 2, 4),
-                                        drop=(False,)), 40000),
-            ('len4-sorted', cfg(4, bs=(2, 3), rates=(5, 9), mts=(None, 16), exp=(None, 2),
-                                mbuf=(None, 2), sort=('asc', 'desc')), 30000),
+                                        drop=(False,)), 20000),
+            ('len7-three-letters', cfg(7, alphabet=(2, 4, 5), bs=(2, 3), rates=(2, 5),
+                                       mts=(None, 16), exp=(None, 3), mbuf=(None, 3),
+                                       drop=(False,)), 20000),
+            ('len8-two-letters', cfg(8, alphabet=(4, 5), bs=(2, 3, 4), rates=(0, 2),
+                                     mts=(None, 8, 16), exp=(None, 2, 5), mbuf=(None, 2, 5)),
+             20000),
+            ('len4-sorted', cfg(4, alphabet=(1, 2, 4, 5, 10), bs=(2, 3), rates=(5, 9),
+                                mts=(None, 16), exp=(None, 2), mbuf=(None, 2),
+                                sort=('asc', 'desc')), 20000),
         ],
-        'random': {'count': 60000, 'floats': 6000},
+        'random': {'count': 40000, 'floats': 4000},
     },
 }
 
@@ -244,7 +251,7 @@ def _batch_lens(obs):
 
 # --------------------------------------------------------------------------
 
-FLAG_CAP = {'quick': 3000, 'thorough': 20000}   # per configuration and clause
+FLAG_CAP = {'quick': 3000, 'thorough': 8000}   # per configuration and clause
 
 
 def collect_cases(tier, res, rng):
@@ -337,6 +344,7 @@ def run(prop, tier):
         for a in v['app']:
             app_count[a] = app_count.get(a, 0) + 1
         key = json.dumps([c['par'], c['lens']], sort_keys=True)
+        mv = c['mv'] or v['mv']
         if status == 'ok':
             nontrivial += 1
             if len(v['app']) > best.get(c['src'], (0,))[0]:
@@ -347,7 +355,8 @@ def run(prop, tier):
         if c['tol'] == 0:
             exact_obs[key] = rec['obs']['batches']
             if v['conf'] != 'conforms' and status != 'viol':
-                res.drift.append({'where': v['conf'], 'case': short(c)})
+                # the real code leaves the model but keeps the property
+                res.drift.append({'where': v['conf'], 'case': short(c), 'model_verdict': mv})
         elif v['conf'] != 'conforms' and status != 'viol':
             # float rounding at a bucket boundary is not drift if the exact run
             # of the same case follows the model
@@ -355,15 +364,11 @@ def run(prop, tier):
                 float_div += 1
             else:
                 res.drift.append({'where': v['conf'], 'case': short(c)})
-        mv = c['mv'] or v['mv']
-        if mv[0] == 'viol':
+        if mv[0] == 'viol' and c['tol'] == 0:
             model_flagged += 1
             model_confirmed += status == 'viol'
         if status == 'viol':
             viols.append((c, rec, v, mv))
-        elif mv[0] == 'viol':
-            # the design admits a violation the real code does not show
-            res.drift.append({'where': 'model-verdict', 'case': short(c), 'model': mv})
     # report: known findings by their narrow match; everything else is a
     # VIOLATION (shortest inputs first, one per distinct input / size setting)
     seen = set()
